@@ -102,13 +102,17 @@ func propC06(g *G, n int) {
 		res := apiCall(0, "api.String", []string{xs})
 		apiCall(0, "api.MarshalText", []string{xs})
 		apiCall(0, "api.Sprintf", []string{sBytes([]byte("v")), xs})
-		v := "efgEG"[g.pick(5)]
-		apiCall(0, "api.Format", []string{xs, sBytes([]byte{v}), "-1"})
+		v := "efgEGfF"[g.pick(7)]
+		fr := apiCall(0, "api.Format", []string{xs, sBytes([]byte{v}), "-1"})
 		apiCall(0, "api.Append", []string{sBytes([]byte("ab")[:g.pick(3)]), xs, sBytes([]byte{v}), "-1"})
 		// the text must read back to an Equal value with the same sign
 		if len(res) == 1 {
 			drm := g.drm()
 			apiCall(drm, "api.Parse", []string{res[0]})
+			if len(fr) == 1 && i%2 == 0 {
+				// the shortest text in the chosen layout (plain digits for %f) reads back as well
+				apiCall(drm, "api.Parse", []string{fr[0]})
+			}
 			if i%3 == 0 {
 				apiCall(drm, "api.UnmarshalText", []string{g.decimal().String(), res[0]})
 				apiCall(drm, "api.Sscan", []string{g.decimal().String(), res[0]})
